@@ -45,7 +45,7 @@ func (e *Engine) genVC(fn *ssa.Function, con *Contract, prop string) (res *FuncR
 		vals: map[ssa.Value]SVal{}, R: map[*ssa.BasicBlock]string{}, memOut: map[*ssa.BasicBlock]*Mem{},
 		keySort: map[string]Sort{}, keyType: map[string]types.Type{}, declared: map[string]bool{}, ord: map[string]int{},
 		params: map[string]SVal{}, mem0: &Mem{m: map[string]string{}}, debug: map[string][]debugBinding{},
-		lets: map[string]SVal{}, usedCon: map[string]bool{}, uncontracted: map[string]bool{}, assertDone: map[string]bool{}, crossAssumed: map[string]bool{}, aliases: map[int][]memAlias{}, boundOut: map[*ssa.BasicBlock]string{}, epochBound: map[int]string{},
+		lets: map[string]SVal{}, usedCon: map[string]bool{}, uncontracted: map[string]bool{}, assertDone: map[string]bool{}, crossAssumed: map[string]bool{}, aliases: map[int][]memAlias{}, boundOut: map[*ssa.BasicBlock]string{}, epochBound: map[int]string{}, nallocOut: map[*ssa.BasicBlock]string{}, nalloc: "0", nfailOut: map[*ssa.BasicBlock]string{}, nfail: "0",
 	}
 	defer func() {
 		if r := recover(); r != nil {
@@ -285,6 +285,8 @@ func (vc *VC) execBlock(b *ssa.BasicBlock) {
 	} else if b.Index == 0 {
 		vc.R[b] = "true"
 		vc.curMem = vc.mem0.clone()
+		vc.nalloc = "0"
+		vc.nfail = "0"
 	} else {
 		var conds []string
 		var mems []*Mem
@@ -301,6 +303,7 @@ func (vc *VC) execBlock(b *ssa.BasicBlock) {
 			return // unreachable block
 		}
 		vc.R[b] = vc.def("R", SBool, or(conds...))
+		vc.nallocJoin(b, preds)
 		if len(mems) == 1 {
 			vc.curMem = mems[0].clone()
 		} else {
@@ -335,8 +338,11 @@ func (vc *VC) execBlock(b *ssa.BasicBlock) {
 		if _, ok := ins.(*ssa.Phi); ok {
 			continue
 		}
+		vc.nallocInstr(ins)
 		vc.execInstr(ins)
 	}
+	vc.nallocOut[b] = vc.nalloc
+	vc.nfailOut[b] = vc.nfail
 	vc.memOut[b] = vc.curMem
 	vc.boundOut[b] = vc.curBound()
 	// back edges: invariant preservation
@@ -390,6 +396,11 @@ func (vc *VC) loopEnv(l *loopInfo, phiVals map[string]SVal, mem *Mem) *Env {
 	for k, v := range phiVals {
 		env.vars[k] = v
 	}
+	// allocation / failed-callee counters (C17), usable in loop invariants
+	if vc.tracksAlloc() {
+		env.vars["nalloc"] = mkInt(vc.nalloc)
+		env.vars["nfail"] = mkInt(vc.nfail)
+	}
 	return env
 }
 
@@ -432,6 +443,8 @@ func (vc *VC) enterLoop(b *ssa.BasicBlock, l *loopInfo) {
 	} else {
 		pre = vc.mergeMems(conds, mems)
 	}
+	vc.nallocJoin(b, entries)
+	vc.nallocLoopHead(l, vc.nalloc)
 	// resolve loop modifies (evaluated in the pre-loop state)
 	if vc.con != nil {
 		penv := vc.loopEnv(l, nil, pre)
@@ -525,6 +538,10 @@ func (vc *VC) checkInvFrom(l *loopInfo, from, header *ssa.BasicBlock, mem *Mem, 
 		}
 	}
 	env := vc.loopEnv(l, phiVals, mem)
+	if n, ok := vc.nallocOut[from]; ok && vc.tracksAlloc() {
+		env.vars["nalloc"] = mkInt(n)
+		env.vars["nfail"] = mkInt(vc.nfailOut[from])
+	}
 	guard := vc.edgeCond(from, header)
 	for _, c := range vc.loopInvs(l) {
 		save := vc.ord[kind]
